@@ -41,12 +41,8 @@ func (e *Ecosystem) NewVersion(version string) (*Version, error) {
 		return nil, fmt.Errorf("invalid Ruby Gem version: %s", original)
 	}
 
-	// Canonicalize and parse segments
-	canonical := canonicalizeVersion(version)
-	segments, err := parseSegments(canonical)
-	if err != nil {
-		return nil, fmt.Errorf("failed to parse version %s: %v", original, err)
-	}
+	// Parse into RubyGems' canonical segments
+	segments := parseSegments(version)
 
 	return &Version{
 		segments: segments,
@@ -54,145 +50,62 @@ func (e *Ecosystem) NewVersion(version string) (*Version, error) {
 	}, nil
 }
 
-// canonicalizeVersion transforms version string to canonical form
-func canonicalizeVersion(version string) string {
-	// Handle prerelease indicators (-, +)
-	parts := strings.FieldsFunc(version, func(r rune) bool {
-		return r == '-' || r == '+'
-	})
-
-	if len(parts) == 0 {
-		return version
-	}
-
-	// Process main version part
-	main := parts[0]
-	result := addDotsBetweenNumericAndAlpha(main)
-
-	// Add prerelease/build parts back
-	for i := 1; i < len(parts); i++ {
-		if strings.Contains(version, "-"+parts[i]) {
-			result += "-" + addDotsBetweenNumericAndAlpha(parts[i])
-		} else {
-			result += "+" + addDotsBetweenNumericAndAlpha(parts[i])
-		}
-	}
-
-	return result
-}
-
-// addDotsBetweenNumericAndAlpha adds dots between numeric and alphabetic segments
-func addDotsBetweenNumericAndAlpha(s string) string {
-	if len(s) == 0 {
-		return s
-	}
-
-	var result strings.Builder
-	var prev rune
-
-	for i, r := range s {
-		if i > 0 {
-			isCurrentNumeric := r >= '0' && r <= '9'
-			isPrevNumeric := prev >= '0' && prev <= '9'
-
-			// Add dot if transitioning between numeric and alpha
-			if (isCurrentNumeric && !isPrevNumeric) || (!isCurrentNumeric && isPrevNumeric) {
-				if prev != '.' && r != '.' {
-					result.WriteRune('.')
-				}
-			}
-		}
-		result.WriteRune(r)
-		prev = r
-	}
-
-	return result.String()
-}
-
-// parseSegments parses canonical version into segments
-func parseSegments(version string) ([]segment, error) {
-	var segments []segment
-
-	// First handle prerelease/build separators at top level
-	mainPart := version
-	prereleasePart := ""
-	buildPart := ""
-
-	// Extract build metadata (after +)
+// parseSegments parses a version string into the canonical segments Gem::Version
+// compares: build metadata is ignored, a hyphen means ".pre.", the segments are
+// the maximal runs of digits and of letters, and trailing zeros are dropped from
+// the leading numeric part and from the rest (1.0.0.rc.1.0 -> 1 rc 1).
+func parseSegments(version string) []segment {
 	if plusIndex := strings.Index(version, "+"); plusIndex != -1 {
-		buildPart = version[plusIndex+1:]
-		mainPart = version[:plusIndex]
+		version = version[:plusIndex]
 	}
+	version = strings.ReplaceAll(version, "-", ".pre.")
 
-	// Extract prerelease (after -)
-	if dashIndex := strings.Index(mainPart, "-"); dashIndex != -1 {
-		prereleasePart = mainPart[dashIndex+1:]
-		mainPart = mainPart[:dashIndex]
-	}
-
-	// Parse main version parts (numeric segments)
-	parts := strings.Split(mainPart, ".")
-	for _, part := range parts {
-		if part == "" {
+	var segments []segment
+	for i := 0; i < len(version); {
+		c := version[i]
+		j := i
+		switch {
+		case c >= '0' && c <= '9':
+			for j < len(version) && version[j] >= '0' && version[j] <= '9' {
+				j++
+			}
+		case isLetter(c):
+			for j < len(version) && isLetter(version[j]) {
+				j++
+			}
+		default:
+			i++
 			continue
 		}
-
-		// Check if this part contains letters (prerelease indicator)
-		if containsLetter(part) {
-			// This is a prerelease segment
-			segments = append(segments, createSegment(part))
-		} else {
-			// This is a numeric segment
-			segments = append(segments, createSegment(part))
-		}
+		segments = append(segments, createSegment(version[i:j]))
+		i = j
 	}
 
-	// Add prerelease segments
-	if prereleasePart != "" {
-		prereleaseParts := strings.Split(prereleasePart, ".")
-		for _, part := range prereleaseParts {
-			if part != "" {
-				// Prerelease parts are always treated as non-numeric for comparison purposes
-				segments = append(segments, segment{
-					value:     strings.ToLower(part),
-					isNumeric: false,
-					numValue:  0,
-				})
-			}
+	// Split at the first string segment and drop trailing zeros of both parts
+	firstString := len(segments)
+	for i, seg := range segments {
+		if !seg.isNumeric {
+			firstString = i
+			break
 		}
 	}
-
-	// Add build segments
-	if buildPart != "" {
-		buildParts := strings.Split(buildPart, ".")
-		for _, part := range buildParts {
-			if part != "" {
-				segments = append(segments, createSegment(part))
-			}
-		}
-	}
-
-	// Remove trailing zero segments from numeric part only
-	segments = removeTrailingZeros(segments)
-
-	return segments, nil
+	canonical := removeTrailingZeros(segments[:firstString:firstString])
+	return append(canonical, removeTrailingZeros(segments[firstString:])...)
 }
 
-// containsLetter checks if string contains any letter
-func containsLetter(s string) bool {
-	for _, r := range s {
-		if (r >= 'a' && r <= 'z') || (r >= 'A' && r <= 'Z') {
-			return true
-		}
-	}
-	return false
+func isLetter(c byte) bool {
+	return (c >= 'a' && c <= 'z') || (c >= 'A' && c <= 'Z')
 }
 
-// createSegment creates a segment from a string part
+// createSegment creates a segment from a run of digits or letters
 func createSegment(part string) segment {
-	if numValue, err := strconv.Atoi(part); err == nil {
+	if part[0] >= '0' && part[0] <= '9' {
+		// Numbers are kept as digit strings without leading zeros so that
+		// numbers of any length compare correctly
+		digits := strings.TrimLeft(part, "0")
+		numValue, _ := strconv.Atoi(digits)
 		return segment{
-			value:     part,
+			value:     digits,
 			isNumeric: true,
 			numValue:  numValue,
 		}
@@ -206,7 +119,7 @@ func createSegment(part string) segment {
 
 // removeTrailingZeros removes trailing zero segments
 func removeTrailingZeros(segments []segment) []segment {
-	for len(segments) > 1 && segments[len(segments)-1].isNumeric && segments[len(segments)-1].numValue == 0 {
+	for len(segments) > 0 && segments[len(segments)-1].isNumeric && segments[len(segments)-1].value == "" {
 		segments = segments[:len(segments)-1]
 	}
 	return segments
@@ -217,32 +130,12 @@ func (v *Version) String() string {
 	return v.original
 }
 
-// Compare compares this version with another Ruby Gem version
+// Compare compares this version with another Gem version the way Gem::Version
+// does: segment by segment, a missing segment counting as 0, numbers compared
+// numerically, strings alphabetically, and a string lower than a number (so a
+// version containing a letter is a prerelease of the segments before it).
 func (v *Version) Compare(other *Version) int {
-	// First compare the numeric parts
-	vNumeric, vPrerelease := v.splitNumericAndPrerelease()
-	oNumeric, oPrerelease := other.splitNumericAndPrerelease()
-
-	// Compare numeric parts first
-	numericCmp := compareSegmentArrays(vNumeric, oNumeric)
-	if numericCmp != 0 {
-		return numericCmp
-	}
-
-	// If numeric parts are equal, compare prerelease parts
-	// No prerelease > prerelease
-	if len(vPrerelease) == 0 && len(oPrerelease) == 0 {
-		return 0
-	}
-	if len(vPrerelease) == 0 {
-		return 1 // release > prerelease
-	}
-	if len(oPrerelease) == 0 {
-		return -1 // prerelease < release
-	}
-
-	// Both have prerelease, compare them
-	return compareSegmentArrays(vPrerelease, oPrerelease)
+	return compareSegmentArrays(v.segments, other.segments)
 }
 
 // splitNumericAndPrerelease splits version into numeric and prerelease parts
@@ -270,13 +163,13 @@ func compareSegmentArrays(a, b []segment) int {
 		if i < len(a) {
 			aSeg = a[i]
 		} else {
-			aSeg = segment{value: "0", isNumeric: true, numValue: 0}
+			aSeg = segment{value: "", isNumeric: true, numValue: 0}
 		}
 
 		if i < len(b) {
 			bSeg = b[i]
 		} else {
-			bSeg = segment{value: "0", isNumeric: true, numValue: 0}
+			bSeg = segment{value: "", isNumeric: true, numValue: 0}
 		}
 
 		cmp := compareSegments(aSeg, bSeg)
@@ -290,20 +183,23 @@ func compareSegmentArrays(a, b []segment) int {
 
 // compareSegments compares two version segments
 func compareSegments(a, b segment) int {
-	// Both numeric
 	if a.isNumeric && b.isNumeric {
-		return compareInt(a.numValue, b.numValue)
+		// digit strings without leading zeros: the longer one is larger
+		if len(a.value) != len(b.value) {
+			return compareInt(len(a.value), len(b.value))
+		}
+		return strings.Compare(a.value, b.value)
 	}
 
-	// One numeric, one string - in prerelease context, strings have precedence
+	// A string segment (prerelease) is lower than a number
 	if a.isNumeric && !b.isNumeric {
-		return -1
-	}
-	if !a.isNumeric && b.isNumeric {
 		return 1
 	}
+	if !a.isNumeric && b.isNumeric {
+		return -1
+	}
 
-	// Both strings - lexical comparison
+	// Both are strings - lexical comparison
 	return strings.Compare(a.value, b.value)
 }
 
